@@ -53,6 +53,10 @@ impl<'i> NeverFailedTypedNode<'i, R> for Ws {
     }
 }
 
+impl<'i> pest_typed::iterators::Pairs<'i, R> for Ws {
+    fn for_self_or_each_child(&self, _f: &mut impl FnMut(pest_typed::iterators::Token<'i, R>)) {}
+}
+
 /// Reference: skip spaces in `b[..end]` from `p`.
 pub fn ref_ws(b: &[u8], mut p: usize, end: usize) -> usize {
     while p < end && b[p] == b' ' {
